@@ -58,7 +58,7 @@ def encOut (o : StepOut) : String :=
   s!"notes={notes} punts={o.punts} commits={o.commits} cursor={encBool o.cursorReset} walk={encBool o.needWalk} forgot={encBool o.walkForgot} auth={encBool o.needAuth} raised={encOptCls o.raised}"
 
 def encOutcome : Runnable.Outcome → String
-  | .success => "S" | .noop => "N" | .backoffReq => "B" | .exc => "E" | .baseExc => "X"
+  | .success => "S" | .noop => "N" | .backoffReq => "B" | .exc => "E" | .baseExc => "X" | .noopThenFail => "F"
 
 /-- a delivered notification `SRC:KIND`; kinds the classifier never produces (STARTED, ...) are dropped -/
 def decNote (t : String) : Option (Option (Source × NKind)) :=
